@@ -42,6 +42,8 @@ def main():
     ap.add_argument('--digest-only', action='store_true', help='print the campaign digest (determinism self-test)')
     args = ap.parse_args()
     check_id = args.check.upper()
+    if args.digest_only:
+        os.environ['VERIF_KEEP_DIGESTS'] = '1'
     _reexec_if_needed(check_id)
     sys.path.insert(0, VERIF)
     os.chdir(VERIF)
